@@ -54,7 +54,13 @@ RULE = ("machine scenario = (main-loop slots, handler slots, initial IMR/ISR/F, 
         "never returns 1/8), main loop = filler (NOP/INC/KIL/HALT) + MV|OR (IMR),80|sources written on every pass "
         "(+ optional AND (IMR),7F / OR (IMR),80 pair), handler body as in the sampled part, timers 3..12 (STI 0 / k x "
         "MTI / 5,7,11), key inject / key down-up / ON events over all 60 boundaries, stack window 320 bytes for "
-        "non-returning handlers; half of them also run batched on Rust. Non-trivial = at least one delivery, "
+        "non-returning handlers; half of them also run batched on Rust; power-off-period part (round 5): timers 3..40, "
+        "main = filler + OFF + filler, host keeps stepping the powered-off machine for a generated number of boundaries "
+        "(0 / fewer than / exactly / more than the time the timer still had to run / several periods) before ON wakes "
+        "it, run continues for two more periods; stack-set-up part (round 5): run starts with S not yet loaded (s0 in "
+        "0..4, control: valid), program loads S itself (MV S,imm20) after 1..7 instructions, requests (timers 1..7, key/"
+        "ON events, masks enabled from the start / by the program before / after the stack set-up) reach the gate "
+        "before, at and after that point. Non-trivial = at least one delivery, "
         "or a pending-but-masked status for >= 2 consecutive boundaries, or a HALT/OFF wake-up; distinct = hash of "
         "(model, scenario).")
 
@@ -119,6 +125,17 @@ ASSUMPTIONS = [
     "target (period > 0) at the start of a step with no handler active before or after it, the CPU running before and "
     "after, exactly one instruction executed and no delivery, the target moves in that step (both step loops tick "
     "the timers once per executed instruction unless a handler is active); reported once per timer and run",
+    "'a powered-off CPU additionally stops both timers' is also judged on the timers' own progress: in a step that the "
+    "model itself reports as powered off at both ends (power state 2, nothing executed) the distance between a running "
+    "timer's own expiry target (next_mti/next_sti, period > 0) and the model's own cycle counter must not shrink; "
+    "reported once per timer and run. Evaluated only where the model has a powered-off state of its own: the Python "
+    "machine has none (OFF = HALT, open known finding C12-py-off-keeps-timers-running) and reports power state 1",
+    "both step loops document that a delivery is deferred while the system stack pointer is not initialised (S < 5, 'IRQ "
+    "deferred: stack pointer not initialized'; Python swallows the exception, CoreRuntime::step returns it as an error "
+    "and stays steppable -- that error text with S < 5 is accepted, any other error is a machine violation): a boundary "
+    "with S < 5 carries no delivery obligation; the 3-boundary obligation of a still pending, enabled, event-raised "
+    "request starts at the first boundary with S >= 5; a delivery that happens while S is outside the observed stack "
+    "window is reported by the existing state check",
     "Rust serves one source per delivery and its RETI clears exactly that status bit (lib.rs/eval.rs): an event-raised "
     "request that was only a co-candidate of that delivery and is still pending after the RETI keeps its 3-boundary "
     "obligation; Python has no per-source bookkeeping (one delivery stands for all candidates): nothing re-registered",
